@@ -103,6 +103,17 @@ func pfCoqType(kind string) string {
 
 func pfScalar(kind string) bool { return kind != "" && kind != "ctx" }
 
+var pfErrorIface = types.Universe.Lookup("error").Type().Underlying().(*types.Interface)
+
+// pfIsErrVar: a package-level variable whose value is an error (error, *errors.Error, ..)
+func pfIsErrVar(o types.Object) bool {
+	v, ok := o.(*types.Var)
+	if !ok || v.IsField() || v.Pkg() == nil || v.Parent() != v.Pkg().Scope() {
+		return false
+	}
+	return pfKind(v.Type()) == "err" || types.Implements(v.Type(), pfErrorIface)
+}
+
 // ---------------------------------------------------------------------------------------------
 // functions
 
@@ -243,6 +254,33 @@ func pfTuple(names []string) (pat, expr string) {
 	return "'" + s, s
 }
 
+// pfSubstKey replaces identifier tokens of a read key
+func pfSubstKey(key string, sub map[string]string) string {
+	var b strings.Builder
+	isId := func(r byte) bool {
+		return r == '_' || r >= '0' && r <= '9' || r >= 'a' && r <= 'z' || r >= 'A' && r <= 'Z'
+	}
+	for i := 0; i < len(key); {
+		if !isId(key[i]) {
+			b.WriteByte(key[i])
+			i++
+			continue
+		}
+		j := i
+		for j < len(key) && isId(key[j]) {
+			j++
+		}
+		tok := key[i:j]
+		if v, ok := sub[tok]; ok && (i == 0 || key[i-1] != '.') {
+			b.WriteString(v)
+		} else {
+			b.WriteString(tok)
+		}
+		i = j
+	}
+	return b.String()
+}
+
 // pfSimpleAtom: an identifier or a numeral (no parentheses, no application)
 func pfSimpleAtom(v string) bool {
 	if v == "" {
@@ -368,7 +406,7 @@ func (t *pfTr) ident(x *ast.Ident, en pfEnv, k func(string) string) string {
 		return k(v)
 	}
 	if v, ok := o.(*types.Var); ok && !v.IsField() && v.Pkg() != nil && v.Parent() == v.Pkg().Scope() {
-		if pfKind(v.Type()) == "err" {
+		if pfIsErrVar(v) {
 			return k(t.errCode(x))
 		}
 		return t.pkgVar(x, v, k)
@@ -461,7 +499,7 @@ func (t *pfTr) selector(x *ast.SelectorExpr, en pfEnv, k func(string) string) st
 	if sel == nil {
 		// qualified identifier pkg.Name
 		if v, ok := t.pkg.TypesInfo.Uses[x.Sel].(*types.Var); ok && v.Pkg() != nil && v.Parent() == v.Pkg().Scope() {
-			if pfKind(v.Type()) == "err" {
+			if pfIsErrVar(v) {
 				return k(t.errCode(x))
 			}
 			return t.pkgVar(x, v, k)
@@ -581,14 +619,10 @@ func (t *pfTr) isErrSite(e ast.Expr) bool {
 		}
 	case *ast.SelectorExpr:
 		if info.Selections[x] == nil {
-			if v, ok := info.Uses[x.Sel].(*types.Var); ok && v.Pkg() != nil && v.Parent() == v.Pkg().Scope() {
-				return pfKind(v.Type()) == "err"
-			}
+			return pfIsErrVar(info.Uses[x.Sel])
 		}
 	case *ast.Ident:
-		if v, ok := info.Uses[x].(*types.Var); ok && !v.IsField() && v.Pkg() != nil && v.Parent() == v.Pkg().Scope() {
-			return pfKind(v.Type()) == "err"
-		}
+		return pfIsErrVar(info.Uses[x])
 	}
 	return false
 }
@@ -1043,15 +1077,26 @@ func (t *pfTr) genCall(x *ast.CallExpr, g *pfFun, recv ast.Expr, en pfEnv, hint 
 			}
 		}
 		args := append(append([]string{}, pre...), as...)
-		// the callee's discovered inputs become inputs of the caller under the same key
+		// the callee's discovered inputs (store reads) become inputs of the caller.  A read is identified
+		// by its callee and arguments, so the callee's parameters are replaced by this call's actual
+		// arguments in the key: the same read reached along two call paths is one input
+		sub := map[string]string{}
+		for i, fp := range g.fixed {
+			if i < len(args) {
+				sub[fp.name] = args[i]
+			}
+		}
 		for _, ex := range g.extra {
 			key := ""
 			for kk, n := range g.extraK {
-				if n == ex.name {
+				if n == ex.name && !strings.HasPrefix(kk, "\x00") {
 					key = kk
 				}
 			}
-			args = append(args, t.input(key, ex.name, ex.kind))
+			if strings.HasPrefix(key, "param ") {
+				return t.unrec(x, "call of a translated function with a struct parameter")
+			}
+			args = append(args, t.input(pfSubstKey(key, sub), ex.name, ex.kind))
 		}
 		op := g.spec.coq
 		if len(args) > 0 {
